@@ -1,6 +1,7 @@
 // C09 correspondence harness: identity / ordering bookkeeping of RSForm under random histories
 // with colliding and ill-formed identifiers and aliases.
 #include "common.hpp"
+#include "verif_seed.hpp"
 #include "ccl/semantic/RSForm.h"
 #include <algorithm>
 #include <set>
@@ -79,6 +80,7 @@ static std::string goneCheck(const Ctx& c, uint32_t uid, const std::string& oldA
 
 int main() {
   vh::Rng rng(vh::seedFromEnv());
+  ccl::verif::Seed(static_cast<uint32_t>(vh::seedFromEnv() * 2654435761U + 17U));
   const bool deep = vh::thorough();
   const std::vector<std::string> aliasPool = { "X1", "X2", "X11", "C1", "C2", "S1", "S2", "D1", "D2", "D11", "A1", "F1", "T1", "P1",
     "", "X", "x1", "Y1", "X1a", "D01", "\xD0\x96" "1", "X-1", "1X", "D1 " };
